@@ -163,37 +163,39 @@ def coqc_text(bdir: Path, text: str, timeout: int = 600, name: str = "cases") ->
 
 
 def coqc_many(bdir: Path, texts: list[str], timeout: int = 900) -> list[tuple[bool, str]]:
-    """Compile several independent case files in parallel (sharded correspondence)."""
+    """Compile several independent case files in parallel (sharded correspondence).
+
+    Output goes to files, never to pipes: a shard that prints more than a pipe buffer must not block."""
     d = scratch_dir()
     try:
-        procs = []
         results: list[tuple[bool, str] | None] = [None] * len(texts)
         pending = list(enumerate(texts))
-        running: list[tuple[int, subprocess.Popen[str]]] = []
+        running: list[tuple[int, Any, Any]] = []
         while pending or running:
             while pending and len(running) < JOBS:
                 i, t = pending.pop(0)
                 f = d / f"cases_{i}.v"
                 f.write_text(t)
+                out = open(d / f"cases_{i}.out", "w+")
                 pr = subprocess.Popen(
                     ["timeout", str(timeout), "coqc", "-R", str(bdir), "VGI", "-w", "-all", str(f)],
                     cwd=d,
-                    stdout=subprocess.PIPE,
+                    stdout=out,
                     stderr=subprocess.STDOUT,
                     text=True,
                 )
-                running.append((i, pr))
+                running.append((i, pr, out))
             still = []
-            for i, pr in running:
+            for i, pr, out in running:
                 if pr.poll() is None:
-                    still.append((i, pr))
+                    still.append((i, pr, out))
                 else:
-                    out = pr.stdout.read() if pr.stdout else ""
-                    results[i] = (pr.returncode == 0, out)
+                    out.seek(0)
+                    results[i] = (pr.returncode == 0, out.read())
+                    out.close()
             running = still
             if running:
                 time.sleep(0.05)
-        del procs
         return [r if r is not None else (False, "not run") for r in results]
     finally:
         shutil.rmtree(d, ignore_errors=True)
@@ -301,25 +303,27 @@ class Ctx:
         hits = grep_forbidden(self.bdir)
         self.obligation("grep:no-admitted-no-axiom", "hygiene", not hits, "; ".join(hits))
         ok, log = coq_make(self.bdir, targets, timeout=timeout)
-        bad = failed_files(log)
+        good_targets: set[str] = set()
         for t in targets:
-            vo = self.bdir / t
-            t_ok = vo.exists() and ok
-            if not ok and vo.exists():
-                # -k build: a target may still have been built although another failed
-                src = vo.with_suffix(".v")
-                t_ok = vo.stat().st_mtime >= src.stat().st_mtime and not any(b == str(src.relative_to(self.bdir)) for b in bad)
-                # conservative: if a dependency failed the .vo would be stale; make -k leaves it.  Treat as broken
-                # when any failed file is a (transitive) dependency -- approximated by "any failure at all in this run".
-                t_ok = t_ok and not bad
+            if ok:
+                t_ok = (self.bdir / t).exists()
+            else:
+                # -k build: ask make whether this particular target (with all its dependencies) is up to date
+                with build_lock(self.bdir):
+                    q = subprocess.run(["make", "-f", "Makefile.coq", "-q", t], cwd=self.bdir, capture_output=True, text=True)
+                t_ok = q.returncode == 0 and (self.bdir / t).exists()
+            if t_ok:
+                good_targets.add(Path(t).stem)
             self.obligation(f"build:{t}", "proof", t_ok, "" if t_ok else first_coq_error(log))
         all_ok = ok
-        if ok and theorems:
-            all_ok = self._assumptions(theorems) and all_ok
-        elif theorems:
-            for mod, names in theorems.items():
-                for n in names:
-                    self.obligation(f"theorem:{mod}.{n}", "proof", False, "not checked: build failed: " + first_coq_error(log))
+        checkable = {m: n for m, n in theorems.items() if ok or m in good_targets}
+        if checkable:
+            all_ok = self._assumptions(checkable) and all_ok
+        for mod, names in theorems.items():
+            if mod in checkable:
+                continue
+            for n in names:
+                self.obligation(f"theorem:{mod}.{n}", "proof", False, "not checked: build failed: " + first_coq_error(log))
         return all_ok
 
     def _assumptions(self, theorems: dict[str, list[str]]) -> bool:
